@@ -123,7 +123,8 @@ def run(ctx):
                       "tail truncation index does not derive from the term-mismatch scan (Iterator::position over entry_term(e.index) != Some(e.term))",
                       loc(mb, bi))
             # truncation only when the diverging index is inside the local log
-            okb, wit, _ = guarded_by(mb, bi, lambda c: c.kind == "cmp" and c.truth is not None and cond_calls(F, c, r"RaftLog::last_entry_id$|BufferedRaftLog::last_entry_id$"), conds)
+            okb, wit, _ = guarded_by(mb, bi, lambda c: cmp_rel(F, c, lambda s: s.has_field("Entry", "index") and not s.has_call(r"::last_entry_id$"),
+                                                              lambda s: s.has_call(r"(RaftLog|BufferedRaftLog)::last_entry_id$")) in ("<=", "<"), conds)
             ctx.check("C04-c", "%s#remove_range#inside-log" % fkey(foc), okb, "truncation guarded by diverge_index <= last local index",
                       "tail truncation not guarded by a comparison with the last local index", loc(mb, bi), wit and bpath(mb, wit))
             ins = [x for x, _ in calls_matching(mb, r"BufferedRaftLog::insert_to_memory$") if mb.dominates(bi, x)]
